@@ -151,7 +151,7 @@ def run(ctx: Ctx) -> Result:
     specs = catalogue(ctx.tier)
     st = explore_all(
         ctx, [make_factory(s) for s in specs],
-        max_states=ctx.pick(6000, 60000), max_seconds=ctx.pick(110, 1500))
+        max_states=ctx.pick(6000, 60000), max_seconds=ctx.pick(115, 2400))
     if not st.error and not st.violations:
         for flag in NEED:
             if not any(flag in k for k in st.terminals):
